@@ -205,6 +205,21 @@ Proof.
   rewrite sum_lengths_cons in H. cbn [spec_go map snd]. rewrite len_slice, IH by lia. f_equal. lia.
 Qed.
 
+Lemma spec_go_concat m content : forall fs off,
+  concat (map snd (spec_go m content fs off)) = slice content off (sum_lengths fs).
+Proof.
+  induction fs as [|f fs IH]; intros off.
+  - cbn [spec_go map concat sum_lengths]. symmetry. first [apply slice_zero | unfold sum_lengths; cbn; apply slice_zero].
+  - rewrite sum_lengths_cons. cbn [spec_go map snd concat]. rewrite IH. apply slice_slice_app.
+Qed.
+
+(* the files written, concatenated in order, are the content: nothing lost, duplicated or reordered *)
+Theorem spec_files_concat m content : Geometry m content ->
+  concat (map snd (spec_files m content)) = content.
+Proof.
+  intros (_ & Hlen & _). unfold spec_files. rewrite spec_go_concat, <- Hlen. apply slice_all. apply N.le_refl.
+Qed.
+
 (* ---- C04: lexical paths ------------------------------------------------------------ *)
 Lemma split_go_app cur a b : split_go cur (a ++ slash :: b) = split_go cur a ++ split_go [] b.
 Proof.
